@@ -4,6 +4,7 @@ import os, sys, json, importlib.util
 HERE = os.path.dirname(os.path.dirname(os.path.abspath(__file__)))
 sys.path.insert(0, os.path.join(HERE, "lib"))
 checks = []
+READY = set(open(os.path.join(HERE, "spec", "claimed.txt")).read().split())   # reviewed + committed specs only
 claimed = set()
 for d in sorted(os.listdir(os.path.join(HERE, "spec"))):
     f = os.path.join(HERE, "spec", d, "spec.py")
@@ -12,7 +13,7 @@ for d in sorted(os.listdir(os.path.join(HERE, "spec"))):
     sp = importlib.util.spec_from_file_location("spec_" + d, f)
     m = importlib.util.module_from_spec(sp); sp.loader.exec_module(m)
     M = getattr(m, "MANIFEST", None)
-    if not M or M.get("disabled"):
+    if not M or M.get("disabled") or d not in READY:
         continue
     claimed.add(d)
     checks.append({
